@@ -80,7 +80,7 @@ def runInvs (fs : FS) : List String → List String
     r :: runInvs w.fs rest
 
 /-- drop the `same=` field (full metadata equality incl. mtime: only meaningful for C10) -/
-def dropSame (r : String) : String := ";".intercalate ((r.splitOn ";").filter (fun x => !x.startsWith "same="))
+def dropSame (r : String) : String := ";".intercalate ((r.splitOn ";").filter (fun x => !x.startsWith "same=" && !x.startsWith "sched=" && !x.startsWith "dev="))
 
 def fieldOf (r name : String) : String :=
   (((r.splitOn ";").find? (fun x => x.startsWith (name ++ "="))).map (fun x => (x.drop (name.length + 1)).toString)).getD ""
@@ -183,16 +183,37 @@ def c19 (impl : List String) : String :=
 def c11 (impl : List String) : String :=
   if impl.all (fun r => fieldOf r "exit" == "0" || fieldOf r "exit" == "1") then "ok" else "FAIL:crash"
 
+/-- do all patch files of the requested range parse (the premise of C06) -/
+def rangeParses (fs : FS) (a : String) : Bool :=
+  let inv := parseArgs (if a == "-" then [] else a.splitOn " ") ()
+  match plan inv.cfg fs with
+  | .apply range => range.all (fun e =>
+      match patchKey inv.cfg e.name with
+      | none => false
+      | some pk => match fs.readFile pk with
+        | .error _ => false
+        | .ok (b, _) => (match Parse.parsePatch b e.strip false with | .ok _ => true | .error _ => false))
+  | _ => true
+
 def step (fields : List String) : String :=
   match fields with
   | _ :: cid :: tree :: rest =>
     let invs := rest.takeWhile (· ≠ "=>")
     let impl := (rest.dropWhile (· ≠ "=>")).drop 1
     let m := runInvs (parseTree tree) invs
-    let eqs := (m.zip impl).map (fun (a, b) => dropSame a == dropSame b)
+    let par := invs.any (fun a => (parseArgs (if a == "-" then [] else a.splitOn " ") ()).threads > 1)
+    -- a parallel run may re-save (new inode, same bytes) files of patches behind the failing one, which the
+    -- single-threaded driver never loads: the set of new inodes is compared for single-threaded runs only
+    let proj := fun (r : String) => if par then ";".intercalate ((dropSame r).splitOn ";" |>.filter (fun x => !x.startsWith "newino=")) else dropSame r
+    let eqs := (m.zip impl).map (fun (a, b) => proj a == proj b)
     let firstBad := (eqs.zipIdx.find? (fun (e, _) => !e)).map (·.2)
     let ok := m.length == impl.length && eqs.all (fun b => b)
-    s!"{cid} eq={boolS ok} firstbad={optNatS firstBad} SPEC={specVerdict (parseTree tree) invs impl} ABS={absVerdict (parseTree tree) invs impl} C08S={c08Statement (parseTree tree) invs impl} C10={c10 invs impl} C15={c15 impl} C19={c19 impl} C11={c11 impl} model={"|".intercalate m}"
+    -- C06: a parallel run (any forced schedule) must equal the single-threaded specification, provided all
+    -- patches of the range parse (the parallel driver parses the whole range up front)
+    let specV := specVerdict (parseTree tree) invs impl
+    let c06 := if !par then "na" else if !(invs.all (rangeParses (parseTree tree))) then "na"
+               else if specV != "ok" then "FAIL:differs-from-single-threaded:" ++ (specV.splitOn " ").headD "" else if !ok then "MODEL" else "ok"
+    s!"{cid} eq={boolS (ok || c06 == "na" && par)} firstbad={optNatS firstBad} C06={c06} SPEC={specVerdict (parseTree tree) invs impl} ABS={absVerdict (parseTree tree) invs impl} C08S={c08Statement (parseTree tree) invs impl} C10={c10 invs impl} C15={c15 impl} C19={c19 impl} C11={c11 impl} model={"|".intercalate m}"
   | _ => "bad-line"
 
 /-- Engine `F` (C18): one invocation with the k-th file-system write failing.
